@@ -272,6 +272,37 @@ def oracle(cs, o, calls):
         qJ = [q[j] for j in J]
         if all(math.isfinite(t) for t in qJ) and sl.norm2(qJ) > Δ * (1 + 1e-12):
             bad.append(("PANTRDIR:step-exceeds-radius", "call %d: |q_J|=%r > radius %r" % (k, sl.norm2(qJ), Δ)))
+        # the arguments the solver handed to apply, recomputed here: ∇ψ(x̂ₖ), the radius of the loop
+        x = V(c, "x"); γ = D(c, "gamma"); g = V(c, "grad")
+        if all(math.isfinite(t) for t in x + g) and all(abs(t) < 1e100 for t in x) and runcorr.well_conditioned_zeta(cs.prob, cs.prob.g(x), cs.y0, cs.S0):
+            gi = cs.prob.grad_psi(x, cs.y0, cs.S0)
+            sc = 1 + max(abs(t) for t in gi + g)
+            if all(math.isfinite(t) for t in gi) and any(abs(a - b) > 1e-7 * sc for a, b in zip(gi, g)):
+                bad.append(("PANTRDIR:direction-called-with-wrong-gradient", "call %d at x=%r: apply received grad=%r, grad psi(x)=%r" % (k, x, g, gi)))
+        if not cs.P_("disable_accel") and "exc" not in o:
+            if 1 <= k <= len(busy):
+                want = D(busy[k - 1], "Delta")
+            else:
+                ir = cs.P_("init_radius")
+                g0 = V(o["records"][0], "grad") if o["records"] else []
+                want = ir if (math.isfinite(ir) and ir != 0) else 0.1 * sl.norm2(g0)
+                want = max(want, cs.P_("min_radius")) if not math.isnan(want) else cs.P_("min_radius")
+            if math.isfinite(want) and not sl.close(Δ, want, 1e-12, 0):
+                bad.append(("PANTRDIR:radius-not-passed-on", "call %d: apply received radius %r, the loop's trust radius is %r" % (k, Δ, want)))
+        if cs.D_("fd") and cs.D_("fdstep") <= 2.0 ** -20 and all(math.isfinite(t) and abs(t) < 1e6 for t in x + g + p + q) and math.isfinite(γ) and γ > 1e-12 \
+                and math.isfinite(D(c, "val")) and sl.norm2(qJ) >= 1e-3 and runcorr.well_conditioned_zeta(cs.prob, cs.prob.g(x), cs.y0, cs.S0):
+            # finite-difference products: the returned model value must be close to the model built from the Hessian itself
+            Hm = dense_hess_psi(cs.prob, x, cs.y0, cs.S0)
+            K = [i for i in range(len(p)) if i not in J]
+            qK = [p[i] if i in K else 0.0 for i in range(len(p))]
+            HqK = [sum(Hm[a][b] * qK[b] for b in range(len(p))) for a in range(len(p))]
+            rJ = [-p[j] / γ + cs.D_("hvf") * HqK[j] for j in J]
+            HqJ = [sum(Hm[a][b] * q[b] for b in J) for a in J]
+            nK2 = math.fsum(p[i] * p[i] for i in K)
+            mv = sum(a * b for a, b in zip(rJ, qJ)) + 0.5 * sum(a * b for a, b in zip(qJ, HqJ)) - nK2 / (2 * γ)
+            vs = sum(abs(a * b) for a, b in zip(rJ, qJ)) + 0.5 * abs(sum(a * b for a, b in zip(qJ, HqJ))) + nK2 / (2 * γ) + 1e-300
+            if abs(mv - D(c, "val")) > 2e-2 * vs:
+                bad.append(("PANTRDIR:fd-model-value-far-from-hessian-model", "call %d (finite differences, J=%r): returned model value %r, model with the Hessian itself %r" % (k, J, D(c, "val"), mv)))
         if k < len(busy):
             r = busy[k]
             if [t.hex() for t in V(r, "q")] != [t.hex() for t in q] and not any(math.isnan(t) for t in q):
